@@ -540,6 +540,7 @@ class Program:
                                         and f.impl_trait is None and f._mirj is not None]
             except (ValueError, OSError):
                 pass
+        self.unknown_dids = set(f.did for f in self.unknown_helpers)
 
     # ---- type helpers
     def ty(self, i):
